@@ -27,12 +27,14 @@ def run_shard(ctx, spec):
     mon = hj.Monitor(ctx, rules=True, final=False, replay=False)
     rnd = random.Random(ctx.seed * 911 + spec['i'])
     ex = hj.Explorer(mon, rnd)
+    ex.fine_bars = bool(spec.get('fine'))
+    ex.float_heights = bool(spec.get('float'))
     if spec['w'] == 'bfs':
         ex.bfs(spec['nj'], spec['reg'], spec['jo'], part=spec['i'], nparts=spec['n'], split_depth=spec.get('split', 3),
                max_states=spec.get('max_states'))
     elif spec['w'] == 'probe':
         for k in range(spec['walks']):
-            ex.walk_probe(rnd.choice([2, 2, 3, 3, 4]), maxlen=70)
+            ex.walk_probe(rnd.choice([2, 2, 3, 3, 4]), maxlen=70, jumpoff_prefix=bool(spec.get('jo')))
         ctx.count('eval.probed-calls', ex.probed)
     else:
         for k in range(spec['walks']):
@@ -50,16 +52,24 @@ def shards(tier, seed):
     if tier == 'quick':
         s = [{'w': 'bfs', 'nj': 2, 'reg': 2, 'jo': 1, 'i': i, 'n': 10} for i in range(10)]
         s += [{'w': 'bfs', 'nj': 1, 'reg': 3, 'jo': 1, 'i': 0, 'n': 1}]
+        s += [{'w': 'bfs', 'nj': 2, 'reg': 1, 'jo': 2, 'i': 0, 'n': 1}]          # two jump-off heights, full alphabet
+        s += [{'w': 'bfs', 'nj': 3, 'reg': 1, 'jo': 1, 'i': 0, 'n': 1}]
+        s += [{'w': 'bfs', 'nj': 2, 'reg': 2, 'jo': 0, 'i': 0, 'n': 1, 'fine': True}]   # with sub-centimetre rises of the bar
         s += [{'w': 'walk', 'walks': 60, 'i': 100 + i} for i in range(5)]
-        s += [{'w': 'probe', 'walks': 300, 'i': 200 + i} for i in range(16)]
+        s += [{'w': 'walk', 'walks': 80, 'i': 120 + i, 'float': True} for i in range(3)]
+        s += [{'w': 'probe', 'walks': 300 if i % 2 == 0 else 900, 'i': 200 + i, 'jo': i % 2} for i in range(16)]
         return s
     # (2 athletes, 2+2) is explored completely (374 k distinct states); the deeper / wider spaces are cut per shard
     s = [{'w': 'bfs', 'nj': 2, 'reg': 2, 'jo': 2, 'i': i, 'n': 32, 'split': 4} for i in range(32)]
     s += [{'w': 'bfs', 'nj': 2, 'reg': 3, 'jo': 2, 'i': i, 'n': 32, 'split': 5, 'max_states': 120000} for i in range(32)]
     s += [{'w': 'bfs', 'nj': 3, 'reg': 2, 'jo': 1, 'i': i, 'n': 32, 'split': 5, 'max_states': 120000} for i in range(32)]
     s += [{'w': 'bfs', 'nj': 1, 'reg': 4, 'jo': 1, 'i': 0, 'n': 1}]
+    s += [{'w': 'bfs', 'nj': 2, 'reg': 1, 'jo': 3, 'i': i, 'n': 16, 'split': 4} for i in range(16)]
+    s += [{'w': 'bfs', 'nj': 3, 'reg': 1, 'jo': 2, 'i': i, 'n': 16, 'split': 4} for i in range(16)]
+    s += [{'w': 'bfs', 'nj': 2, 'reg': 2, 'jo': 1, 'i': i, 'n': 8, 'split': 3, 'fine': True} for i in range(8)]
     s += [{'w': 'walk', 'walks': 1250, 'i': 100 + i} for i in range(16)]
-    s += [{'w': 'probe', 'walks': 6000, 'i': 200 + i} for i in range(16)]
+    s += [{'w': 'walk', 'walks': 1250, 'i': 150 + i, 'float': True} for i in range(8)]
+    s += [{'w': 'probe', 'walks': 6000, 'i': 200 + i, 'jo': i % 2} for i in range(16)]
     return s
 
 
